@@ -142,3 +142,15 @@ def callee_receiving(repo: Repo, fi: FuncInfo, param: str) -> FuncInfo | None:
             if got is not None and got[0] == 'func':
                 return got[1]
     return None
+
+
+def private_helper(repo: Repo, module: str, name: str, params) -> FuncInfo | None:
+    """A private helper, if it exists with the interface (parameter names, in order) the helper-level rule was written for; None
+    otherwise - the rule is then decided through the public entry points only (helpers come, go and change their signatures)."""
+    try:
+        fi = repo.func(module, name)
+    except AnalysisError:
+        return None
+    a = fi.node.args
+    have = [x.arg for x in a.posonlyargs + a.args + a.kwonlyargs if x.arg not in ('self', 'cls')]
+    return fi if have == list(params) else None
